@@ -50,9 +50,8 @@ Proof. exact ftp_run. Qed.
 Theorem C04_smtp_persistent : forall clean fuel st i buf, persistent (smtp_prog clean fuel st i buf).
 Proof. exact smtp_persistent. Qed.
 
-Theorem C04_smtp_code_reads_the_stream : forall segs,
-  run_impl SVC_SMTP segs = str_obs (impl_prog SVC_SMTP (fuel_for (concat segs))) (concat segs).
-Proof. exact smtp_run_code. Qed.
+Theorem C04_smtp_full : C04_full SVC_SMTP.
+Proof. exact smtp_run. Qed.
 
 (* mail accumulation, for every continuation of the dialogue: RSET empties the buffer, a BDAT
    chunk appends exactly its bytes, BDAT LAST reports buffer ++ chunk and empties the buffer,
@@ -87,16 +86,12 @@ Theorem C04_smtp_mail_from : forall clean self df i buf line,
   smtp_step clean self df SLoop i buf line = self SMail (S i) (if clean then [] else buf).
 Proof. exact smtp_mail_from. Qed.
 
-(* outside "MAIL FROM with a non-empty buffer" the code IS the reference reading *)
+(* the reading before a828b58 (clean = false) differed from the code only at MAIL FROM with a
+   non-empty buffer *)
 Theorem C04_smtp_code_is_reference_elsewhere : forall self df st i buf line,
   (st = SLoop -> is_command line s_MAILFROM = true -> buf = []) ->
   smtp_step false self df st i buf line = smtp_step true self df st i buf line.
 Proof. exact smtp_code_is_reference_step. Qed.
-
-(* defect of the code: a transaction abandoned without RSET leaks its chunks into the next mail *)
-Theorem C04_smtp_abandoned_chunk_refuted :
-  fst (run_impl SVC_SMTP [W_SMTP_STALE]) <> fst (expected SVC_SMTP W_SMTP_STALE).
-Proof. exact (proj1 smtp_abandoned_chunk_refuted). Qed.
 
 Theorem C04_redis_full : C04_full SVC_REDIS.
 Proof. exact redis_run. Qed.
@@ -246,6 +241,13 @@ Proof.
   repeat (first [split | constructor | (eexists; reflexivity) | discriminate | reflexivity | (vm_compute; discriminate)]).
 Qed.
 
+
+Example C04_smtp_abandoned_transaction_regression :
+  mail_events (fst (run_impl SVC_SMTP [W_SMTP_STALE])) = [mkEv EV_SMTP_MAIL [[104;105]%N; [110;101;119]%N]] /\
+  mail_events (fst (seg_obs (smtp_prog false (fuel_for W_SMTP_STALE) SHello 0 []) [W_SMTP_STALE])) =
+  [mkEv EV_SMTP_MAIL [[104;105]%N; [111;108;100;44;110;101;119]%N]].
+Proof. vm_compute. split; reflexivity. Qed.
+
 Print Assumptions C04_read_until_depends_on_stream_only.
 Print Assumptions C04_take_depends_on_stream_only.
 Print Assumptions C04_read_returns_a_prefix.
@@ -254,13 +256,12 @@ Print Assumptions C04_persistent_reader_reads_the_stream.
 Print Assumptions C04_outside_read_and_reader_loss.
 Print Assumptions C04_ftp_full.
 Print Assumptions C04_smtp_persistent.
-Print Assumptions C04_smtp_code_reads_the_stream.
+Print Assumptions C04_smtp_full.
 Print Assumptions C04_smtp_rset_empties_the_buffer.
 Print Assumptions C04_smtp_bdat_chunk_appends.
 Print Assumptions C04_smtp_bdat_last_reports_the_buffer.
 Print Assumptions C04_smtp_mail_from.
 Print Assumptions C04_smtp_code_is_reference_elsewhere.
-Print Assumptions C04_smtp_abandoned_chunk_refuted.
 Print Assumptions C04_redis_full.
 Print Assumptions C04_memcached_full.
 Print Assumptions C04_http_full.
